@@ -8,8 +8,9 @@ protocol (three lines per design):
         → `ok`       (`meths` = id:inW:outW:validate:customCombiner, `sites` = id:caller:callee,
                       `rels` = src:dst:U|L|R:conflict:readyDep, `rr` = b:b' (ready b reads run b'), `rl` = b:b' (ready b reads ready b'),
                       `er` = s:d (enable s reads run d), `dr` = x:y (data node x reads data node y))
-  `check` → `wf=1 vo=1 rule=1 rdwf=1 noen=1 data=1 thm=1 cyc=0 ne=17`
-        (`thm` = all hypotheses of `c10_wellfounded` hold for this design; `cyc` = `hasCycle` of the model graph)
+  `check` → `wf=1 vo=1 rule=1 rdwf=1 noen=1 enok=1 data=1 thm=1 thmd=1 cyc=0 ne=17`
+        (`thm` = all hypotheses of `c10_wellfounded_partial` hold for this design, `thmd` = those of
+         `c10_wellfounded_derived_partial`; `cyc` = `hasCycle` of the model graph)
   `edges` → `n2>r2,r0 u2>r2,n2 …`   every node with its out-edges (`x>y` = x is driven by y), canonical order
 node names: r=ready n=runnable u=run e=enable a=arg i=dataIn o=dataOut, followed by the body / site id
 -/
@@ -105,8 +106,9 @@ def stepLine (s : Option Design) (line : String) : Option Design × String :=
   | some "check", some D =>
     let noen := D.enReads.isEmpty
     let data := D.dataOk D.dataCert
-    let thm := D.wf && D.validOrder && D.ruleReady && D.rdWf && noen && data
-    (s, s!"wf={showBool D.wf} vo={showBool D.validOrder} rule={showBool D.ruleReady} rdwf={showBool D.rdWf} noen={showBool noen} data={showBool data} thm={showBool thm} cyc={showBool (hasCycle D.edges)} ne={D.edges.length}")
+    let enok := D.enOk
+    let base := D.wf && D.validOrder && D.ruleReady && D.rdWf && data
+    (s, s!"wf={showBool D.wf} vo={showBool D.validOrder} rule={showBool D.ruleReady} rdwf={showBool D.rdWf} noen={showBool noen} enok={showBool enok} data={showBool data} thm={showBool (base && noen)} thmd={showBool (base && enok)} cyc={showBool (hasCycle D.edges)} ne={D.edges.length}")
   | some "edges", some D => (s, showEdges D.edges)
   | _, _ => (s, "bad-op")
 
